@@ -3,6 +3,7 @@ package database
 import (
 	"context"
 	"fmt"
+	"reflect"
 	"sync"
 )
 
@@ -320,7 +321,7 @@ func (m *MockTableHandler) Count(column string, value interface{}) int64 {
 
 	count := int64(0)
 	for _, record := range m.db.data[m.name] {
-		if record[column] == value {
+		if valuesMatch(record[column], value) {
 			count++
 		}
 	}
@@ -334,7 +335,7 @@ func (m *MockTableHandler) CountWhere(column1 string, value1 interface{}, column
 
 	count := int64(0)
 	for _, record := range m.db.data[m.name] {
-		if record[column1] == value1 && record[column2] == value2 {
+		if valuesMatch(record[column1], value1) && valuesMatch(record[column2], value2) {
 			count++
 		}
 	}
@@ -348,11 +349,18 @@ func (m *MockTableHandler) Filter(column string, value interface{}) []interface{
 
 	result := make([]interface{}, 0)
 	for _, record := range m.db.data[m.name] {
-		if record[column] == value {
+		if valuesMatch(record[column], value) {
 			result = append(result, record)
 		}
 	}
 	return result
+}
+
+// valuesMatch compares a stored field with a condition value. Go's == panics
+// when both sides hold a slice or a map (an array or object from a program),
+// so those are compared structurally.
+func valuesMatch(a, b interface{}) bool {
+	return reflect.DeepEqual(a, b)
 }
 
 // NextId returns the next available ID.
